@@ -65,7 +65,29 @@ func symKey(alg int, k []byte) key.Key {
 	case 3:
 		a = key.Alg(alg)
 	}
-	return key.Key{iana.KeyParameterKty: iana.KeyTypeSymmetric, iana.KeyParameterAlg: a, iana.SymmetricKeyParameterK: append([]byte{}, k...)}
+	out := key.Key{iana.KeyParameterKty: iana.KeyTypeSymmetric, iana.KeyParameterAlg: a, iana.SymmetricKeyParameterK: append([]byte{}, k...)}
+	// optional members that change nothing: the family's complete key_ops list in each representation a key can hold it
+	// in, and a kid — again chosen by the key octets only
+	o1, o2 := iana.KeyOperationEncrypt, iana.KeyOperationDecrypt
+	if isIn(alg, hmacAlgs) || isIn(alg, aesmacAlgs) {
+		o1, o2 = iana.KeyOperationMacCreate, iana.KeyOperationMacVerify
+	}
+	sum := 0
+	for _, b := range k {
+		sum += int(b)
+	}
+	switch sum % 7 {
+	case 1:
+		out[iana.KeyParameterKeyOps] = key.Ops{o1, o2}
+	case 2:
+		out[iana.KeyParameterKeyOps] = []int{o2, o1}
+	case 3:
+		out[iana.KeyParameterKeyOps] = []any{int64(o1), uint64(o2)}
+	case 4:
+		out[iana.KeyParameterKeyOps] = []any{o1, o2, o1}
+		out[iana.KeyParameterKid] = []byte{1, 2, 3}
+	}
+	return out
 }
 
 var errKeyFromDisagrees = fmt.Errorf("keyfrom-disagrees")
@@ -197,6 +219,29 @@ func execPrim(op string, a []string) string {
 			}
 		}
 		return okBytes(c2, e2)
+	case "prim.aeadalg":
+		// prim.aeadalg <alg> <key> <alg2> <nonce> <pt> <aad>: an Encryptor made for <alg>, whose key's alg member is then set
+		// to <alg2> (keys are live maps: Encryptor.Key() hands out the map the implementation reads); one encryption, which
+		// the same Encryptor must also decrypt
+		alg, _ := strconv.Atoi(a[0])
+		alg2, _ := strconv.Atoi(a[2])
+		e, err := encryptorFor(alg, unhx(a[1]))
+		if err == errKeyFromDisagrees {
+			return "keyfrom-disagrees"
+		}
+		if err != nil {
+			return "err"
+		}
+		e.Key()[iana.KeyParameterAlg] = alg2
+		ct, err := e.Encrypt(unhx(a[3]), unhx(a[4]), unhx(a[5]))
+		if err == nil {
+			if p, e2 := e.Decrypt(unhx(a[3]), ct, unhx(a[5])); e2 != nil || string(p) != string(unhx(a[4])) {
+				return "OWN-CIPHERTEXT-REFUSED"
+			}
+		} else if _, e2 := e.Decrypt(unhx(a[3]), append(unhx(a[4]), make([]byte, 16)...), unhx(a[5])); e2 == nil {
+			return "DECRYPTS-WHAT-IT-REFUSES-TO-ENCRYPT"
+		}
+		return okBytes(ct, err)
 	case "prim.aead.enc":
 		alg, _ := strconv.Atoi(a[0])
 		e, err := encryptorFor(alg, unhx(a[1]))
@@ -479,6 +524,19 @@ func genPrimAead(r *rand.Rand, n int) []string {
 			pt = randBytes(r, r.Intn(40))
 		}
 		out = append(out, fmt.Sprintf("prim.aead.enc %d %s %s %s %s", alg, hx(k), hx(nonce), hx(pt), hx(aad)))
+		if i%6 == 1 && len(pt) < 4096 { // the key's alg member changes after construction
+			alg2 := []int{pick(r, ccmAlgs), pick(r, ccmAlgs), pick(r, gcmAlgs), 24, 0, 5, -7, 1 << 20}[r.Intn(8)]
+			nn := nonce
+			switch r.Intn(4) {
+			case 0:
+				nn = randBytes(r, nonceSizeOf(alg2))
+			case 1:
+				nn = nil
+			case 2:
+				nn = randBytes(r, []int{7, 12, 13}[r.Intn(3)])
+			}
+			out = append(out, fmt.Sprintf("prim.aeadalg %d %s %d %s %s %s", alg, hx(k), alg2, hx(nn), hx(pt), hx(aad)))
+		}
 		e, err := encryptorFor(alg, k)
 		if err != nil {
 			continue
